@@ -538,3 +538,46 @@ def target_render_integer():
 
 
 TARGETS["_render_integer"] = target_render_integer
+
+
+def target_render_case_label():
+    """header_generator._render_case_label (C07: no duplicate case labels in the generated Ok() switch): the label text is a
+    function of the case VALUE (and the discriminant's type) only -
+
+        integer      the rendering of the value by _render_integer (its own contract)
+        enumeration  static_cast</**/<fully qualified enum type>>(<decimal value>)
+
+    so two candidates get the same text exactly when they have the same value, which is what the de-duplication of
+    _generate_optimized_ok_method_body (keyed by the text) needs; in particular two NAMES of one enum value give one label."""
+    cons, hg, error, ir_util = _m()
+    eng = pyvc.Engine()
+    eng.precise_format = True
+    eng.contract(hg._render_integer, lambda interp, v: ("INT", v), "_render_integer")
+    eng.contract(hg._get_fully_qualified_name, lambda interp, cn, ir: "::ns::Kind", "_get_fully_qualified_name")
+
+    def harness(c):
+        kind = c.choice("discriminant", ["integer", "enumeration"])
+        name = c.choice("written-as", ["LEGACY", "CURRENT"])           # two names of one value: must not matter
+        v = z3.Int("case_value")
+        cname = SRec("CanonicalName", {"module_file": "m.emb", "object_path": ["Kind"]})
+        et = SRec("ExpressionType", {"which_type": kind,
+                                     "integer": SRec("IntegerType", {"modular_value": pyvc.SNumStr(v), "modulus": "infinity", "minimum_value": pyvc.SNumStr(v), "maximum_value": pyvc.SNumStr(v)}),
+                                     "enumeration": SRec("EnumType", {"name": SRec("Reference", {"canonical_name": cname}), "value": pyvc.SNumStr(v)})})
+        e = SRec("Expression", {"type": et, "which_expression": "constant_reference",
+                                "constant_reference": SRec("Reference", {"canonical_name": SRec("CanonicalName", {"module_file": "m.emb", "object_path": ["Kind", name]}),
+                                                                         "source_name": [SRec("Word", {"text": "Kind"}), SRec("Word", {"text": name})]})})
+        c.covered = True
+        st, got = pyvc.run_body(c, "compiler.back_end.cpp.header_generator._render_case_label", [e, "IR"])
+        if kind == "integer":
+            c.oblige("integer-label-is-the-rendering-of-the-value", isinstance(got, tuple) and got[0] == "INT" and pyvc.zint(got[1]) == v, detail=repr(got)[:200])
+            return
+        pieces = got.pieces if isinstance(got, pyvc.PStr) else [got]
+        ok = len(pieces) == 3 and pieces[0] == "static_cast</**/::ns::Kind>(" and isinstance(pieces[1], pyvc.SNumStr) and pieces[2] == ")"
+        c.oblige("enum-label-is-a-cast-of-the-numeric-value-to-the-enum-type", ok, detail=repr(pieces)[:200])
+        if ok:
+            c.oblige("enum-label-denotes-the-case-value", pieces[1].t == v)
+    paths = eng.explore(harness)
+    return pyvc.collect(paths, "_render_case_label"), sum(1 for p in paths if p.covered)
+
+
+TARGETS["_render_case_label"] = target_render_case_label
